@@ -148,8 +148,9 @@ fn base(kind: Kind) -> Case {
     Case { name: "m".into(), label_key: "k".into(), label_val: "v".into(), label2_val: None, desc: Some("help".into()), unit: None, suffix: false, kind, global: None }
 }
 
-const SIGMA: [&str; 17] = ["a", "Z", "0", "_", ":", "\"", "\\", "\n", "\r", "{", "}", ",", "=", "#", " ", "é", "\0"];
-const CLASSES: [&str; 4] = ["\n", "\"", "\\", "x"];
+const SIGMA: [&str; 18] = ["a", "n", "Z", "0", "_", ":", "\"", "\\", "\n", "\r", "{", "}", ",", "=", "#", " ", "é", "\0"];
+// the ordinary character is `n`, the one letter that means something after a backslash
+const CLASSES: [&str; 4] = ["\n", "\"", "\\", "n"];
 const KINDS: [Kind; 4] = [Kind::Counter, Kind::Gauge, Kind::Summary, Kind::Histogram];
 
 fn sweep(ctx: &Ctx, res: &mut PartResult, which: &str) {
@@ -283,7 +284,7 @@ fn main() {
     driver::main(CheckDef {
         prop: "C08",
         level: "model_checking",
-        rule: "every string of length <= 3 (thorough 4) over a 17-character nasty alphabet {a Z 0 _ : \" \\ LF CR { } , = # space é NUL} in each role (metric name, label key, label value, global label name, global label value, description; names/keys non-empty), every string of length <= 7 (9) over the escaper's four character classes for label values and descriptions, pairs of roles, and all 17 Unit values x unit-suffix on/off x awkward names; each for counter/gauge/summary/histogram on a fresh recorder with a bystander family; render() output must parse under a strict grammar (line classes, name grammars, escapes, value forms, one TYPE before samples, allowed suffixes) and come back with exactly the registered families, samples and label counts; distinct = distinct (family name, type, sample-name set)",
+        rule: "every string of length <= 3 (thorough 4) over an 18-character nasty alphabet {a n Z 0 _ : \" \\ LF CR { } , = # space é NUL} in each role (metric name, label key, label value, global label name, global label value, description; names/keys non-empty), every string of length <= 7 (9) over the escaper's four character classes {LF \" \\ n} for label values and descriptions, pairs of roles, and all 17 Unit values x unit-suffix on/off x awkward names; each for counter/gauge/summary/histogram on a fresh recorder with a bystander family; render() output must parse under a strict grammar (line classes, name grammars, escapes, value forms, one TYPE before samples, allowed suffixes) and come back with exactly the registered families, samples and label counts; distinct = distinct (family name, type, sample-name set)",
         assumptions: &["the C07 precondition: sanitised names distinct, label names not le/quantile (the alphabets cannot produce a collision)"],
         parts,
         run,
